@@ -96,6 +96,13 @@ def build(spec):
     if k == "random":
         rng = random.Random(spec[1])
         return GL.make_gate(rng, spec[2], GL.QubitPool(rng, bound=spec[3]))
+    if k == "reuse":
+        # the object is used once (all views incl. as_tensornet), re-parametrised in place, then observed: no stale state may survive
+        g = build(spec[2])
+        rng = random.Random(spec[1])
+        GL.warm_up(g)
+        GL.reparam(g, rng)
+        return g
     raise AssertionError(k)
 
 
@@ -441,6 +448,14 @@ def gen_cases(tier, rng):
                         ts.append(rng.choice([["general", 2, rng.randrange(10 ** 9), True], ["ctrl", [rng.randint(0, 1)], ["leaf", "RyGate", rng.uniform(-3, 3)]],
                                               ["leaf", "RzzGate", rng.uniform(-3, 3)], ["prepare", 2, [0.1, -0.2, 0.3, 0.4], False]]))
                 yield {"spec": ["mplx", nc, ts]}
+    # the same kinds of objects after a first use and an in-place re-parametrisation
+    for _ in range(120 if thorough else 30):
+        nc = rng.choice([1, 1, 2])
+        ts = [rng.choice([["leaf", "RyGate", rng.uniform(-3, 3)], ["leaf", "RotationGate", [rng.uniform(-2, 2) for _ in range(3)]],
+                          ["general", 1, rng.randrange(10 ** 9), False], ["phase", rng.uniform(-3, 3), 1]]) for _ in range(2 ** nc)]
+        yield {"spec": ["reuse", rng.randrange(10 ** 9), ["mplx", nc, ts]]}
+        yield {"spec": ["reuse", rng.randrange(10 ** 9), ["ctrl", [rng.randint(0, 1) for _ in range(rng.randint(1, 2))], rng.choice(ts)]]}
+        yield {"spec": ["reuse", rng.randrange(10 ** 9), ["random", rng.randrange(10 ** 12), rng.choice([1, 2]), rng.random() < 0.5]]}
     # mismatching target widths: np.stack refuses
     yield {"spec": ["mplx", 1, [["leaf", "RyGate", 0.3], ["general", 2, 5, True]]]}
     # random nested gates
